@@ -165,6 +165,14 @@ class Gen:
                         node.setdefault("parameters", {})[name] = rng.randint(0, 4)
                     continue
                 r = rng.random()
+                if default is not rm.REQ and self.chance(0.04):
+                    # the key is present in the context with the value None: context still beats the default
+                    if cur == "Float" and self.chance(0.5):
+                        pre.append({"processor": "VNoneProbe", "context_key": name})
+                    else:
+                        ctx[name] = None
+                    keys.add(name)
+                    continue
                 if r < 0.35:
                     node.setdefault("parameters", {})[name] = self.val()
                     if self.chance(0.25):  # same name also in context on purpose: config must win
@@ -459,7 +467,7 @@ def flow_case(g: "Gen") -> dict:
     rng = g.rng
     pat = rng.choice(["use_before_create", "create_and_require_same", "delete_then_require", "delete_recreate_require",
                       "type_across_ctx", "type_after_passthrough", "sweep_key_downstream", "default_shadowed",
-                      "from_context_chain", "plain"])
+                      "from_context_chain", "none_valued_key", "plain"])
     src = {"processor": "VSrc", "parameters": {"value": g.val()}}
     key = rng.choice(["factor", "addend", "a", "scale", "offset"])
     consumer = {"factor": {"processor": "VMul"}, "addend": {"processor": "VAdd"}, "a": {"processor": "VAffine"},
@@ -528,6 +536,11 @@ def flow_case(g: "Gen") -> dict:
     elif pat == "default_shadowed":
         prod = rng.choice([{"processor": "VValueProbe", "context_key": "factor"}, {"processor": "rename:ext_f:factor"}])
         nodes = [src, prod, {"processor": "VMulDefault"}] + ([{"processor": "delete:factor"}, {"processor": "VMulDefault"}] if g.chance(0.5) else [])
+    elif pat == "none_valued_key":
+        # a key that is present with the value None: context still beats the signature default
+        k2, cons = rng.choice([("tag", {"processor": "VNullSink"}), ("scale", {"processor": "VScaledProbe", "context_key": "sp"}),
+                               ("factor", {"processor": "VMulDefault"}), ("k", {"processor": "VCtxScale", "parameters": {"base": 2.0}})])
+        nodes = [src, {"processor": "VNoneProbe", "context_key": k2}] + [filler() for _ in range(rng.randint(0, 1))] + [cons]
     elif pat == "from_context_chain":
         nodes = [src, {"processor": "VAdd", "derive": {"parameter_sweep": {"parameters": {"addend": "s"}, "variables": {"s": {"from_context": "seq"}}, "collection": "FloatDataCollection"}}},
                  {"processor": "slice:VValueProbe:FloatDataCollection", "context_key": "each"},
